@@ -230,7 +230,11 @@ def _run_ino(prop, tier, seed, plan, tmp, t0, only_scn):
         shutil.copy(only_scn, scn)
         nscn = sum(1 for _ in open(scn))
     else:
-        nscn = gen_scenarios(plan[tier], seed, scn, scale)
+        fams = plan[tier]
+        if os.environ.get("VERIF_PLAN"):       # ad-hoc exploration: "fam:n[:params],..." instead of the registered plan
+            fams = [(x.split(":") + ["", ""])[:3] for x in os.environ["VERIF_PLAN"].split(",")]
+            fams = [(f, int(n), p) for f, n, p in fams]
+        nscn = gen_scenarios(fams, seed, scn, scale)
     scenarios = {}
     for ln in open(scn):
         s = json.loads(ln)
@@ -288,6 +292,10 @@ def _run_ino(prop, tier, seed, plan, tmp, t0, only_scn):
         log("INFRA-ERROR: %d scenarios could not be judged, e.g. %s" % (len(infra), infra[:3]))
         return 2
     # 6. replays + output
+    if os.environ.get("VERIF_DUMP_VIOLS"):      # exploration aid: every deviation with the scenario that produced it
+        with open(os.environ["VERIF_DUMP_VIOLS"], "w") as f:
+            for sid, cause in viols:
+                f.write(json.dumps(dict(id=sid, cause=cause, steps=scenarios.get(sid, {}).get("steps"))) + "\n")
     by = None
     out_lines = []
     rep_root = os.path.join(HERE, "replays")
